@@ -342,6 +342,37 @@ def _classify(name, op, a, U, labels):
             _prop_merge_labels(t, x, a.get("strict", True), labels, 0, 0)
         return
 
+    if name == "finalize":
+        d = a.get("d")
+        if kind_of(d) != "doc":
+            labels.add("wrong_type")
+            return
+        seen_resolvable = False
+        order = [s for s in U.subtree(d) if kind_of(s) == "sec"]
+        try:
+            order = list(d.itersections(recursive=True))      # the order finalize works in
+        except Exception:
+            pass
+        for sec in order[:200]:
+            if sec.include is not None:
+                labels.add("has_include")
+                continue
+            if sec.link is None:
+                continue
+            try:
+                tgt = sec.get_section_by_path(sec.link)
+                sec.merge_check(tgt, strict=False)            # refused references count as well
+                ok = True
+            except Exception:
+                ok = False
+            if ok:
+                seen_resolvable = True
+            else:
+                labels.add("unresolvable_link_after_resolvable" if seen_resolvable
+                           else "unresolvable_link_first")
+                break
+        return
+
     if name == "set_link":
         x, path = a["x"], a["path"]
         if kind_of(x) != "sec":
